@@ -177,14 +177,25 @@ def run(tier, seed, replay=None):
         except Exception as e:  # noqa
             fail('edges/faces', args0, 'raised %s' % type(e).__name__)
         if pd == 2:
-            for _ in range(3):
-                d = rng.randrange(2)
-                b = spec['bases'][d]
+            # parameter lines: the two ends of the domain (also of directions that are not clamped there: periodic seams,
+            # non-open knot vectors), a knot, and a value between knots
+            spec_c = gen(2, kinds=['open', 'periodic', 'nonopen'])
+            oc = O.make_impl(spec_c)
+            args_c = dict(obj=O.spec_json(spec_c))
+            todo_c = []
+            for d in range(2):
+                b = spec_c['bases'][d]
                 s_, e_ = O.domain(b)
-                if rng.random() < 0.5:
-                    kv = float(rng.choice(sorted(set(x for x in b['knots'] if s_ <= x <= e_))))
-                else:
-                    kv = float(s_ + (e_ - s_) * Fr(rng.randint(1, 31), 32))
+                todo_c.append((d, float(s_)))
+                # insert_knot(end()) on a non-open knot vector is the recorded finding C04-nonperiodic-end: not asked here
+                nonopen_end = b['periodic'] < 0 and b['knots'][-1] > e_
+                if not nonopen_end:
+                    todo_c.append((d, float(e_)))
+                todo_c.append((d, float(rng.choice(sorted(set(x for x in b['knots'] if s_ <= x <= e_ and not (nonopen_end and x == e_)))))))
+                todo_c.append((d, float(s_ + (e_ - s_) * Fr(rng.randint(1, 31), 32))))
+            for d, kv in todo_c:
+                o, args0_keep = oc, args0
+                args0 = args_c
                 try:
                     cpc = o.const_par_curve(kv, d)
                     count('const_par_curve')
@@ -196,6 +207,7 @@ def run(tier, seed, replay=None):
                             break
                 except Exception as e:  # noqa
                     fail('const_par_curve', dict(args0, knot=kv, direction=d), 'raised %s' % type(e).__name__)
+                args0 = args0_keep
 
     # ---------------------------------------------------------------- edge_curves (2 and 4), edge_surfaces (2 and 6)
     for it in range(reps):
